@@ -48,6 +48,30 @@ Theorem C13_key_order_perm :
     hdr_of a = hdr_of b -> NoDup (keys_e a) -> Permutation (entries a) (entries b) -> ext_equiv a b.
 Proof. exact @perm_ext_equiv. Qed.
 
+(** the statement of the property in one piece: projection to a key commutes with merge and with subset,
+    and both depend on their inputs only as unordered maps *)
+Theorem C13_key_local :
+  forall (V : Type) (veqb : V -> V -> bool) (vnone : V),
+    (forall (es : list (ext V)) (k : key) dim affine slice_dim (r : ext V),
+       from_sequence veqb vnone es dim affine slice_dim = Ok r ->
+       exists rk, from_sequence veqb vnone (map (proj k) es) dim affine slice_dim = Ok rk /\ ext_equiv rk (proj k r)) /\
+    (forall (e r : ext V) (k : key) dim idx,
+       get_subset veqb vnone e dim idx = Ok r ->
+       exists rk, get_subset veqb vnone (proj k e) dim idx = Ok rk /\ ext_equiv rk (proj k r)) /\
+    (forall (es es' : list (ext V)) dim affine slice_dim (r : ext V),
+       Forall2 (ext_equiv (V:=V)) es es' -> from_sequence veqb vnone es dim affine slice_dim = Ok r ->
+       exists r', from_sequence veqb vnone es' dim affine slice_dim = Ok r' /\ ext_equiv r r') /\
+    (forall (e e' r : ext V) dim idx,
+       ext_equiv e e' -> get_subset veqb vnone e dim idx = Ok r ->
+       exists r', get_subset veqb vnone e' dim idx = Ok r' /\ ext_equiv r r').
+Proof.
+  intros V veqb vnone. split; [|split; [|split]].
+  - intros es k dim affine slice_dim r. apply merge_proj.
+  - intros e r k dim idx. apply subset_proj.
+  - intros es es' dim affine slice_dim r. apply merge_equiv.
+  - intros e e' r dim idx. apply subset_equiv.
+Qed.
+
 (** C13(a), PARTIAL.  Full statement (not expressible in the functional model, covered at run time only):
       "after r = from_sequence(seq, ...), get_subset(...), split, to_nifti: every input object is
        observably unchanged (same to_json, data bytes, affine), and no list object is shared between an
